@@ -561,21 +561,27 @@ func classifyBudget(p *core.Prog, h *ssa.BasicBlock, body map[*ssa.BasicBlock]bo
 			return 0
 		}
 		bo, ok := e.(*ssa.BinOp)
-		if !ok || bo.Op != token.ADD || bo.X != ssa.Value(ph) {
+		if !ok || bo.Op != token.ADD || (bo.X != ssa.Value(ph) && bo.Y != ssa.Value(ph)) {
 			return -1
 		}
-		lo, ok := sf.valLower(bo.Y, map[*ssa.Phi]bool{})
+		inc := bo.Y
+		if bo.Y == ssa.Value(ph) {
+			inc = bo.X
+		}
+		lo, ok := sf.valLower(inc, map[*ssa.Phi]bool{})
 		if !ok {
-			if l, _, ok2 := sf.rng(bo.Y, 0); ok2 {
+			if l, _, ok2 := sf.rng(inc, 0); ok2 {
 				lo, ok = l, true
 			}
 		}
-		// len(x)+1 and similar
+		// len(x)+1, 1+len(x) and similar
 		if !ok {
-			if b2, ok2 := bo.Y.(*ssa.BinOp); ok2 && b2.Op == token.ADD {
-				if c, isC := b2.Y.(*ssa.Const); isC && c.Value != nil {
-					if l, ok3 := sf.valLower(b2.X, map[*ssa.Phi]bool{}); ok3 {
-						lo, ok = l+c.Int64(), true
+			if b2, ok2 := inc.(*ssa.BinOp); ok2 && b2.Op == token.ADD {
+				for _, pair := range [][2]ssa.Value{{b2.X, b2.Y}, {b2.Y, b2.X}} {
+					if c, isC := pair[1].(*ssa.Const); isC && c.Value != nil && !ok {
+						if l, ok3 := sf.valLower(pair[0], map[*ssa.Phi]bool{}); ok3 {
+							lo, ok = l+c.Int64(), true
+						}
 					}
 				}
 			}
@@ -606,7 +612,7 @@ func classifyBudget(p *core.Prog, h *ssa.BasicBlock, body map[*ssa.BasicBlock]bo
 				continue // the true edge must leave the loop
 			}
 			l := f.L.Val
-			if bo, ok := l.(*ssa.BinOp); ok && bo.Op == token.ADD && bo.X == ssa.Value(ph) {
+			if bo, ok := l.(*ssa.BinOp); ok && bo.Op == token.ADD && (bo.X == ssa.Value(ph) || bo.Y == ssa.Value(ph)) {
 				l = ph
 			}
 			if l != ssa.Value(ph) {
